@@ -396,6 +396,68 @@ theorem discrete_onehot (thr : F) (hthr : 0 < thr) (raw : List F) (hne : raw ≠
 
 example : coefficients (1 / 100 : Rat) true [3 / 10, -1 / 5, 1 / 2, 1 / 2] = some [0, 0, 1, 0] := by decide +kernel
 
+private lemma argmaxFrom_first (cs : List F) : ∀ (pre : List F) (best : Nat) (bv : F),
+    pre[best]? = some bv → (∀ x ∈ pre, x ≤ bv) → (∀ j, j < best → ∀ x, pre[j]? = some x → x < bv) →
+    ∀ j x v, j < argmaxFrom pre.length best bv cs → (pre ++ cs)[j]? = some x →
+      (pre ++ cs)[argmaxFrom pre.length best bv cs]? = some v → x < v := by
+  induction cs with
+  | nil =>
+    intro pre best bv h1 h2 h3 j x v hj hx hv
+    simp only [argmaxFrom, List.append_nil] at hj hx hv
+    rw [h1] at hv
+    cases hv
+    exact h3 j hj x hx
+  | cons c cs ih =>
+    intro pre best bv h1 h2 h3 j x v
+    simp only [argmaxFrom]
+    have e : pre ++ c :: cs = (pre ++ [c]) ++ cs := by simp
+    have hl : (pre ++ [c]).length = pre.length + 1 := by simp
+    split
+    · rename_i hlt
+      rw [e, ← hl]
+      exact ih (pre ++ [c]) pre.length c (by simp) (by
+        intro y hy
+        rcases List.mem_append.mp hy with hy | hy
+        · exact le_trans (h2 y hy) hlt.le
+        · simp at hy; rw [hy]) (by
+        intro i hi y hy
+        rw [List.getElem?_append_left hi] at hy
+        exact lt_of_le_of_lt (h2 y (List.mem_of_getElem? hy)) hlt) j x v
+    · rename_i hge
+      have hb : best < pre.length := (List.getElem?_eq_some_iff.mp h1).1
+      rw [e, ← hl]
+      exact ih (pre ++ [c]) best bv (by rw [List.getElem?_append_left hb]; exact h1) (by
+        intro y hy
+        rcases List.mem_append.mp hy with hy | hy
+        · exact h2 y hy
+        · simp at hy; rw [hy]; exact not_lt.mp hge) (by
+        intro i hi y hy
+        rw [List.getElem?_append_left (lt_trans hi hb)] at hy
+        exact h3 i hi y hy) j x v
+
+/-- **Candidates tied for the largest weight (round 4).**  When several candidates earn the same largest weight the
+    discrete super learner still puts its single one on ONE of them, the first (`np.argmax` returns the first
+    occurrence of the maximum): every candidate before the selected one has a strictly smaller weight.  Together
+    with `discrete_onehot` (the selected weight is the largest; the vector is one-hot) this is the whole of the
+    discrete branch on tied weights: selecting by value (`coefficient == max`) instead of by position is excluded. -/
+theorem discrete_tie_first (thr : F) (raw w : List F) (hw : coefficients thr false raw = some w) :
+    coefficients thr true raw = some (onehot raw.length (argmax w)) ∧
+      ∀ j x v, j < argmax w → w[j]? = some x → w[argmax w]? = some v → x < v := by
+  have hn : normalize (threshold thr raw) = some w := by
+    simpa [coefficients] using hw
+  refine ⟨by simp [coefficients, hn], ?_⟩
+  cases w with
+  | nil => intro j x v hj; simp [argmax] at hj
+  | cons c cs =>
+    intro j x v hj hx hv
+    have := argmaxFrom_first cs [c] 0 c (by simp) (by simp) (by intro i hi; omega) j x v
+    simp only [List.length_singleton, List.singleton_append] at this
+    exact this (by simpa [argmax] using hj) hx (by simpa [argmax] using hv)
+
+example : coefficients (1 / 100 : Rat) true [1 / 10, 2 / 5, 2 / 5, 1 / 10] = some [0, 1, 0, 0] ∧
+    coefficients (1 / 100 : Rat) false [1 / 10, 2 / 5, 2 / 5, 1 / 10] = some [1 / 10, 2 / 5, 2 / 5, 1 / 10] := by
+  decide +kernel
+
 /-! ## predict -/
 
 /-- **Prediction = coefficient-weighted combination of the retained candidates (L2 loss).**
